@@ -188,6 +188,10 @@ SPEC = r"""
         (match r { Ok(t) => Some(t@), Err(_) => None }, final(scopes).world())
             == interp(old(scopes).world(), s@, interpolation_slots@, 0, 0, Seq::empty()), // [C15:an_interpolated_string_is_the_concatenation_in_order_of_its_literal_pieces_and_its_string_slot_values_for_any_unicode_text]
         r matches Err(e) ==> located(e), // [C17:interpolation_errors_are_located]
+        // "columns count characters": the error of a slot is reported on the literal's line, at the literal's column plus the
+        // CHARACTER offset of the slot in the decoded text (plus the four delimiter characters `$"` and `${`)
+        r matches Err(e) ==> (e matches Error::AtLoc{line: l, col: c, ..} && l == *loc.0
+            && (exists|k: int| 0 <= k < interpolation_slots@.len() && c == *loc.1 + (#[trigger] interpolation_slots@[k]).0 + 4)), // [C17_C18:an_error_inside_a_slot_is_reported_at_the_slots_character_offset_in_the_literal]
 """
 
 
@@ -315,3 +319,4 @@ def replays(failed):
     yield ("multi-byte text between and after slots", "a := \"x\"\nprint($\"${a}€${a}\U0001F600\")\n", exp("x€x\U0001F600\n"))
     yield ("ascii", "a := \"x\"\nprint($\"p ${a} q\")\n", exp("p x q\n"))
     yield ("non-string slot", "print($\"${1}\")\n", exp(err="1:"))
+    yield ("an error inside a slot is reported at the slot's character column", "print($\"naïve ${nmae}\")\n", exp(err="replay.sd:1:17: 1:1: 'nmae' is not defined"))
